@@ -89,6 +89,28 @@ def stage(chk, tier, seed, work, rnd, only=None):
     rej = int(0 in cbad.get("P_Partner", [])) + int(1 in cbad.get("P_Dist", []))
     if rej != 2:
         raise ModelError("coupling: negative controls: %d of 2 rejected %r" % (rej, cbad))
+    # every phase starts from Fresh, whatever the history: two whole contact phases of the real model on the same cells
+    pc = []
+    for g in (1, 2, 3):
+        for shrink, thr in ((4, 2.0), (8, 3.0), (1, 2.0), (2, 1e300)):
+            pc.append({"k": len(pc) + 1, "geo": g, "unit": rnd.choice([2.0 ** -17, 1.0, 2.0 ** 10]), "posA": [x for p in APOS for x in p], "posB": [x for p in bpos(g) for x in p],
+                       "cut2": CUT2[g], "shrink": shrink, "thr": thr, "away": rnd.choice([1000, -700, 64])})
+    pcp, pop = os.path.join(work, "ph_cases.ndjson"), os.path.join(work, "ph_obs.ndjson")
+    vlib.write_ndjson(pcp, pc)
+    rc, out = vlib.run([os.path.join(vlib.build("m1d0", ["contact_driver"]), "contact_driver"), "phases", pcp, pop], timeout=600, env={"OMP_NUM_THREADS": "2"})
+    pobs = vlib.read_ndjson(pop) if os.path.exists(pop) else []
+    if rc != 0 or len(pobs) != len(pc):
+        chk.violation("crash:phases", "contact_driver phases terminated with status %d after %d of %d cases" % (rc, len(pobs), len(pc)), {"variant": "m1d0", "phases_case": pc[min(len(pobs), len(pc) - 1)]})
+    else:
+        np_, pbad = vlib.tlc_validate_records(SPEC, "CouplingPhaseTrace", "CouplingPhaseTrace.cfg", pobs, chunk=100, par=1, workers=2)
+        n += np_
+        if "P_FirstPhaseCouples" in pbad:
+            raise ModelError("phases: the first contact phase coupled nothing in cases %r" % pbad["P_FirstPhaseCouples"])
+        for i in pbad.get("P_PhaseStartsFresh", [])[:3]:
+            chk.violation("impl:phases:%s" % json.dumps({k: pc[i][k] for k in ("geo", "shrink", "thr")}),
+                          "second contact phase of the node-node coupling model on case %s: %d nodes still coupled although the cells are %s lattice units apart (moved by the phase: %s, forces: %s)"
+                          % (json.dumps({k: pc[i][k] for k in ("geo", "shrink", "thr", "away", "unit")}), pobs[i]["second_coupled"], pc[i]["away"], pobs[i]["moved"], not pobs[i]["force_free"]),
+                          {"variant": "m1d0", "phases_case": pc[i]})
     # the same protocol at the grain of the parallel loop (decision / write / write, two threads): the per-node invariants survive
     # every interleaving; StaleOnlyIfStolen / MutualNearestCoupled must NOT (if they did, the finer-grained model would not be finer)
     rp = vlib.tlc(SPEC, "CouplingPar", "CouplingPar.cfg", timeout=1200)
